@@ -131,9 +131,16 @@ def make_mutation(kind):
                 b["endtime"][-1] = (res.end if isinstance(res, strax.Chunk) else end) + 5
             return rebuild(plugin, res, b)
         if kind == "gap":
-            return as_chunk(plugin, res, start, end, s=res.start + 1 if res.end > res.start + 1 else res.start)
+            first = graphs.RUNTIME[plugin._vf_token]["mutate"]["k"] == 0  # a run may start anywhere: no gap
+            if first or res.end <= res.start + 1 or (len(res.data) and res.data["time"].min() < res.start + 1):
+                graphs.RUNTIME[plugin._vf_token]["noop"] = True  # no room to open a gap without another violation
+                return res
+            return as_chunk(plugin, res, start, end, s=res.start + 1)
         if kind == "overlap":
-            return as_chunk(plugin, res, start, end, s=max(0, res.start - 1))
+            if res.start == 0:
+                graphs.RUNTIME[plugin._vf_token]["noop"] = True
+                return res
+            return as_chunk(plugin, res, start, end, s=res.start - 1)
         raise ValueError(kind)
 
     return fn
@@ -187,6 +194,15 @@ def st_case(draw, want_pk=None, want_kind=None, threaded=None, position=None):
     types = graphs.all_types(spec)
     desc_of = [t for t in types if set(outs) & (graphs.ancestors(spec, t) | {t})]
     d["target"] = draw(st.sampled_from(desc_of))
+    if kind in ("gap", "overlap"):
+        d["target"] = outs[0]  # the property speaks of gaps / overlaps in a *requested target*
+        if draw(st.booleans()):
+            # make room for the violation: two chunks, the second one with a row-free stretch at its start
+            for s in d["rows"]:
+                d["rows"][s] = [[0, 1], [4, 5]]
+                d["cutsA"][s], d["cutsB"][s] = [], [2]
+            d["t1"] = 7
+            position = "last"
     d["stored"] = [t for t in d["stored"] if t not in desc_of]
     d["offender"] = node["name"]
     d["violation"] = kind
@@ -236,6 +252,7 @@ def run_case(d):
             k = min(1, ncalls - 1)
         rt["mutate"] = dict(name=d["offender"], k=k, fn=make_mutation(d["violation"]))
         rt["mutated"] = False
+        rt["noop"] = False
         rt["calls"].clear()
         rt.pop("yielded", None)
         ctx = c01.make_context(classes, [strax.DataDirectory(path)], d["cfg"])
@@ -274,8 +291,10 @@ def run_case(d):
         if d["violation"] in ("row_early", "row_late") and exc is None:
             # the mutated output may have had no rows in that chunk -> nothing was violated
             return dict(nt=False, classes=["vacuous:empty_chunk"])
-        if d["violation"] == "gap" and exc is None:
-            return dict(nt=False, classes=["vacuous:gap_not_possible"])
+        if rt.get("noop"):
+            if exc is not None:
+                raise Violation("novio.raised:" + type(exc).__name__, f"{tag} {exc!r} {d}") from exc
+            return dict(nt=False, classes=["vacuous:gap_or_overlap_not_possible_here"])
         if S is not None:
             if S.deadlock or S.timeouts_fired:
                 raise Violation("violation.hang", f"{tag} {S.deadlock} {S.timeout_events} {d}")
